@@ -101,27 +101,24 @@ def main():
     except Exception as e:  # extraction failure = broken tie, handled below
         broken_obligations.append(("fact-extraction", f"{type(e).__name__}: {e}"))
     try:
-        bt, blog = lean_tools.build()
+        bt, blog = lean_tools.build(("tpdriver",))
     except lean_tools.BuildError as e:
-        # a generated-facts theorem that no longer checks is a broken proof obligation; any
-        # other build failure is infrastructure
-        gen_fail = [ln for ln in e.log.split("\n") if "Generated" in ln and ("error" in ln or "✖" in ln)]
-        if gen_fail and any(g in " ".join(gen_fail) for g in cfg.get("generated", [])):
-            broken_obligations.append(("generated-facts", "\n".join(gen_fail)[:1500]))
-            bt = 0
-        elif gen_fail and not cfg.get("generated"):
-            # not this property's obligation: fall back to the committed facts for this run
-            print("INFRA: generated facts of another property fail to build; see that property's check")
-            print(e.log[-1500:])
-            return 2
-        else:
-            print("INFRA: lake build failed")
-            print(e.log[-3000:])
-            return 2
+        print("INFRA: the model / driver does not build")
+        print(e.log[-3000:])
+        return 2
+    props_built = True
+    try:
+        lean_tools.build((f"Treepath.Props.{pid}",))
+    except lean_tools.BuildError as e:
+        # a theorem of this property (or a generated-facts obligation it depends on) no longer
+        # checks: a broken proof obligation, handled below (search for a failing input first)
+        props_built = False
+        errs = [ln for ln in e.log.split("\n") if ln.startswith("error") or "✖" in ln]
+        broken_obligations.append(("proof-does-not-check", "\n".join(errs)[:1500]))
 
     # 2. proof audit
     aud = dict(theorems=[], clean=[], dirty={}, missing=[], forbidden=[], cmd="")
-    if not broken_obligations:
+    if props_built:
         aud = lean_tools.audit(pid)
         for n in aud["missing"]:
             broken_obligations.append(("theorem-missing", n))
@@ -143,8 +140,7 @@ def main():
 
     # 3+4. correspondence and support oracles
     try:
-        if not any(k == "generated-facts" for k, _ in broken_obligations):
-            props.run_property(ctx, cfg)
+        props.run_property(ctx, cfg)
     except Exception:
         print("INFRA: harness error")
         traceback.print_exc()
@@ -153,11 +149,8 @@ def main():
     if broken_obligations and not any(v["level"] == "spec" for v in ctx.violations):
         # the property is no longer shown to hold; escalate the search for a failing input
         try:
-            if any(k == "generated-facts" for k, _ in broken_obligations):
-                pass
-            else:
-                ctx.notes.append("escalated search after broken obligation")
-                props.run_property(ctx, cfg, escalate=20)
+            ctx.notes.append("escalated search after broken obligation")
+            props.run_property(ctx, cfg, escalate=8)
         except Exception:
             traceback.print_exc()
 
